@@ -111,6 +111,80 @@ def template_snapshot(st):
             "variables": {k: len(v) for k, v in st.variables.items() if len(v)}}
 
 
+def build_multistage(case):
+    """declare the multi-stage OCP of a case; returns (ocp, pv, pp, builts, template, template snapshot, counters)"""
+    import casadi as ca
+    import rockit
+    from ..gen import build
+    mode = case["mode"]
+    stages = case["stages"]
+    res = {"counters": {"clone_templates": 0}}
+    ocp = rockit.Ocp()
+    pv = ocp.variable()
+    pp = ocp.parameter()
+    ocp.set_value(pp, case["pp"])
+    builts = []
+    tmpl = None
+    tmpl_snap = None
+    if mode == "direct":
+        for sp in stages:
+            kw = {}
+            for key in ("t0", "T"):
+                a = build.horizon_arg(sp[key])
+                if a is not None:
+                    kw[key] = a
+            st = C.call("stage()", ocp.stage, **kw)
+            b = build.Built(ocp, st, sp)
+            C.call("declare(stage)", declare_stage_content, b)
+            builts.append(b)
+    else:
+        sp0 = stages[0]
+        base_spec = copy.deepcopy(sp0)
+        kw = {}
+        # the template carries the first stage's horizon unless that one is an override as well
+        tmpl_h = {}
+        for key in ("t0", "T"):
+            tmpl_h[key] = case["template_h"][key]
+            a = build.horizon_arg(tmpl_h[key])
+            if a is not None:
+                kw[key] = a
+        tmpl = rockit.Stage(**kw)
+        tb = build.Built(None, tmpl, dict(base_spec, t0=tmpl_h["t0"], T=tmpl_h["T"]))
+        C.call("declare(template)", declare_stage_content, tb)
+        tmpl_snap = template_snapshot(tmpl)
+        res["counters"]["clone_templates"] += 1
+        for sp in stages:
+            kw = {}
+            for key in ("t0", "T"):
+                if sp[key].get("override"):
+                    kw[key] = build.horizon_arg(sp[key])
+                else:
+                    sp[key] = tmpl_h[key]
+            st = C.call("stage(template)", ocp.stage, tmpl, **kw)
+            b = build.Built(ocp, st, sp)
+            b.syms.update(tb.syms)
+            for p_ in sp["params"]:
+                if p_.get("own_value"):
+                    C.call("set_value(clone)", st.set_value, b.syms[p_["name"]], build.param_value(p_))
+            builts.append(b)
+    # couplings and parent objective
+    for c in case["couplings"]:
+        a, b_ = builts[c["from"]], builts[c["to"]]
+        if c.get("time"):
+            ocp.subject_to(a.stage.tf == b_.stage.t0, meta=build.meta_for(c["cid"]))
+        else:
+            xa = a.syms[c["sa"]]
+            xb = b_.syms[c["sb"]]
+            xa = xa[0] if xa.numel() > 1 else xa
+            xb = xb[0] if xb.numel() > 1 else xb
+            rhs = b_.stage.at_t0(xb) + (pv if c["use_pv"] else 0)
+            ocp.subject_to(a.stage.at_tf(xa) == rhs, meta=build.meta_for(c["cid"]))
+    ocp.add_objective(pp * pv ** 2 + 0.3 * pv)
+    ocp.solver("ipopt", {"ipopt.max_iter": 0, "ipopt.print_level": 0, "print_time": False,
+                         "ipopt.hessian_approximation": "limited-memory"})
+    return ocp, pv, pp, builts, tmpl, tmpl_snap, res["counters"]["clone_templates"]
+
+
 def run_case(case):
     import casadi as ca
     import rockit
@@ -126,69 +200,8 @@ def run_case(case):
                         "clone_templates": 0}}
     rng = np.random.default_rng(case["seed"])
     try:
-        ocp = rockit.Ocp()
-        pv = ocp.variable()
-        pp = ocp.parameter()
-        ocp.set_value(pp, case["pp"])
-        builts = []
-        tmpl = None
-        tmpl_snap = None
-        if mode == "direct":
-            for sp in stages:
-                kw = {}
-                for key in ("t0", "T"):
-                    a = build.horizon_arg(sp[key])
-                    if a is not None:
-                        kw[key] = a
-                st = C.call("stage()", ocp.stage, **kw)
-                b = build.Built(ocp, st, sp)
-                C.call("declare(stage)", declare_stage_content, b)
-                builts.append(b)
-        else:
-            sp0 = stages[0]
-            base_spec = copy.deepcopy(sp0)
-            kw = {}
-            # the template carries the first stage's horizon unless that one is an override as well
-            tmpl_h = {}
-            for key in ("t0", "T"):
-                tmpl_h[key] = case["template_h"][key]
-                a = build.horizon_arg(tmpl_h[key])
-                if a is not None:
-                    kw[key] = a
-            tmpl = rockit.Stage(**kw)
-            tb = build.Built(None, tmpl, dict(base_spec, t0=tmpl_h["t0"], T=tmpl_h["T"]))
-            C.call("declare(template)", declare_stage_content, tb)
-            tmpl_snap = template_snapshot(tmpl)
-            res["counters"]["clone_templates"] += 1
-            for sp in stages:
-                kw = {}
-                for key in ("t0", "T"):
-                    if sp[key].get("override"):
-                        kw[key] = build.horizon_arg(sp[key])
-                    else:
-                        sp[key] = tmpl_h[key]
-                st = C.call("stage(template)", ocp.stage, tmpl, **kw)
-                b = build.Built(ocp, st, sp)
-                b.syms.update(tb.syms)
-                for p_ in sp["params"]:
-                    if p_.get("own_value"):
-                        C.call("set_value(clone)", st.set_value, b.syms[p_["name"]], build.param_value(p_))
-                builts.append(b)
-        # couplings and parent objective
-        for c in case["couplings"]:
-            a, b_ = builts[c["from"]], builts[c["to"]]
-            if c.get("time"):
-                ocp.subject_to(a.stage.tf == b_.stage.t0, meta=build.meta_for(c["cid"]))
-            else:
-                xa = a.syms[c["sa"]]
-                xb = b_.syms[c["sb"]]
-                xa = xa[0] if xa.numel() > 1 else xa
-                xb = xb[0] if xb.numel() > 1 else xb
-                rhs = b_.stage.at_t0(xb) + (pv if c["use_pv"] else 0)
-                ocp.subject_to(a.stage.at_tf(xa) == rhs, meta=build.meta_for(c["cid"]))
-        ocp.add_objective(pp * pv ** 2 + 0.3 * pv)
-        ocp.solver("ipopt", {"ipopt.max_iter": 0, "ipopt.print_level": 0, "print_time": False,
-                             "ipopt.hessian_approximation": "limited-memory"})
+        ocp, pv, pp, builts, tmpl, tmpl_snap, nt = build_multistage(case)
+        res["counters"]["clone_templates"] += nt
         view = C.call("transcribe", nlp.NlpView, ocp)
         rbs = [C.call("sample(stage)", coords.ReadBack, b, view, engine.want_grids(b.spec), b.stage) for b in builts]
         Fpv = ca.Function("pv", [view.x, view.p], [ocp.value(pv)])
